@@ -9,6 +9,7 @@ import ast
 
 from ..core import rule
 from ..engine import emit, cfg as cfgmod
+from ..engine import pattern as P
 from ..engine.facts import dotted, const, src, walk_func, enclosing_stmt
 from . import skeletons as sk
 from . import c05  # def-emitter-siblings is registered for C17 there
@@ -157,7 +158,7 @@ def arg_precedence(ctx):
     for n, nxt in seqs:
         ctx.check(nxt is not None and src(nxt) == "%s.update(kw)" % src(n.targets[0]), "template-then-call:%d" % n.lineno, db.where(n), "Template cache_args are not overridden by the call's keyword arguments", "cache_args.copy() then update(kw)")
     ifs = [n for n in walk_func(gk) if isinstance(n, ast.If) and "pass_context" in src(n.test)]
-    ctx.check(bool(ifs) and "context" in src(ifs[0].test).split("and")[0] and any("setdefault('context', context)" in src(s) for s in ifs[0].body) and any(".copy()" in src(s) for s in ifs[0].body), "context-on-request", db.where(ifs[0]) if ifs else db.where(gk),
+    ctx.check(P.has(gk, "if $c and self.impl.pass_context:\n    $k = $k.copy()\n    $k.setdefault('context', $c)"), "context-on-request", db.where(ifs[0]) if ifs else db.where(gk),
               "the context is not passed exactly when the implementation asks (on a private copy of the kwargs)", "context added on a copy iff impl.pass_context")
     pop = [n for n in walk_func(gk) if isinstance(n, ast.Call) and dotted(n.func) == "kw.pop" and const(n.args[0]) == "__M_defname"]
     ctx.check(bool(pop), "defname-popped", db.where(gk), "__M_defname is not removed from the keyword arguments handed to the backend", "__M_defname popped")
